@@ -549,6 +549,7 @@ def run(ctx: Ctx) -> None:
     _memo.rule_negative_start(ctx, ['graphiq/utils/circuit_comparison.py'])
     _memo.rule_elim_no_pivot(ctx, ['graphiq/utils/circuit_comparison.py'])
     _memo.rule_subject_drift(ctx, ['graphiq/utils/circuit_comparison.py'])
+    _memo.rule_isinstance_on_class(ctx, ['graphiq/utils/circuit_comparison.py'])
     from .c12 import rule_nodekeys
     rule_nodekeys(ctx)  # the label index these functions query (wrapper / identity / gate labels) is maintained by add/remove/replace
     rule_cmp_fields(ctx)
